@@ -233,6 +233,9 @@ def conservation_case(r, s, rng, i):
     if i % 10 == 7:
         # headings pushed beyond the deepest level a format has a command for (rendering-control metadata: the output stays a snippet)
         text = 'Base Header Level: %d\n\n' % rng.choice([2, 3, 4, 6, 8]) + '###### deepest w0\n\nfirst w00\n\n' + text
+    if i % 10 == 3:
+        # a bracket followed by more text on the line after a table is a paragraph, not a caption: all of it is rendered, after the table
+        text = '| w01 | w02 |\n|---|---|\n| w03 | w04 |\n[Cap w05] trailing w06\n\n' + text
     src = text.encode('utf-8')
     # footnote definitions sit at the end of the source: body order = order of w-words before them
     m_defs = re.search(r'\n\[[^\]\n]*\]: ', text)
